@@ -100,6 +100,37 @@ CLAIMS = {
         "computable code and compared exactly on Gaussian dyadics. Partial: composites (division, pow, sqrt, tan..csch, inverse "
         "functions, log's arg_c) are not theorems: they are validated against the independent idempotent oracle by the search.",
    technique="Lean 4 proof (Mathlib complex trig identities) on translator-generated formulas + exact ring correspondence"),
+ 'C01': dict(
+   text="Flagship theorem derivative_exact_on_polynomials (Lean 4, any ordered field): for central/forward/backward, every n>=1, "
+        "order>=1, real ratio >1, non-zero base step, any number of steps and Richardson terms, and every polynomial of degree "
+        "< n + method_order, every candidate of every stage of the modelled pipeline (generated name logic -> difference quotient -> "
+        "generated parity tables -> rule = Lagrange row, with the flip sign -> division by h^n -> Richardson -> dea3 -> per-column "
+        "selection) equals n! a_n = f^(n)(x), hence so does the returned value; zero_order_is_f for n = 0. Built from the Taylor "
+        "expansions of the four real-step quotients, fdRow_apply_k, C06, C07, C08, C13. Tie: translator (LogRule), exact "
+        "correspondence of difference-function names and quotients, the linear segment of the real Derivative against the exact "
+        "model on dyadic polynomials (rounding bound), the non-linear tail bit for bit (C08). Partial: rounding, truncation error of "
+        "non-polynomial f, the sqrt(i) complex-step quotients and multicomplex are explored by the search (random expression programs "
+        "vs a Taylor-series oracle, per-(method,n) envelope), not proved.",
+   technique="Lean 4 proof of polynomial exactness of the whole pipeline + exact/bit-exact correspondence + oracle search"),
+ 'C02': dict(
+   text="Lean 4 theorems: every reported error estimate is >= 0 on both paths of _extrapolate (tailStage_err_nonneg, from C07/C13 and the "
+        "outlier penalty); the record's value, error, final step and index are read at one row per element, that row minimises the "
+        "penalised error and is the middle one of ties (argMinRow_spec, bestEstimate_columnwise, chosenRow_valid); final_step is an entry "
+        "of the generated step table; f_value = f(x) and one entry per element (info_consistent); under a single geometric residual the "
+        "Richardson estimate is >= fact*(1-q) times the true error (richErr_dominates_geometric). Tie: the selection/tail model "
+        "reproduces _get_best_estimate and the public full_output record bit for bit (incl. numpy's percentile). Partial: the "
+        "statistical honesty of the estimate for general f is explored (|err| <= 1000*estimate + floor*scale against the Taylor oracle), "
+        "not proved.",
+   technique="Lean 4 proof (non-negativity, argmin, same-row record) + bit-exact correspondence + oracle search"),
+ 'C08': dict(
+   text="Lean 4 theorems about the flat row-major bookkeeping of the selection stage: flat_gather ((ravel M)[r*ncols+c] = M[r][c]); "
+        "bestEstimate_columnwise / chosenRow_single / bestEstimate_depends_on_column: value, error, step and index of element c are read "
+        "at one row of column c, that row depends on column c alone, equals what the one-column table gives, and two tables agreeing on "
+        "column c give the same result; the Wynn stage combines cells of one column only; lengths = ncols; args_forwarded. Tie: "
+        "_get_best_estimate on tables with ties, NaN and all-NaN columns bit for bit; public Derivative on arrays of 0..3 axes: the tail "
+        "model on the captured Richardson outputs reproduces value, error_estimate, final_step, index bit for bit. Partial: NaN handling "
+        "is validated by the Float runs only (fields have no NaN); numpy axis semantics are modelled.",
+   technique="Lean 4 proof of index bookkeeping / column-independence + bit-exact Float correspondence"),
 }
 
 checks = []
